@@ -1,5 +1,7 @@
 import CookModel.Side.Serde
 import CookModel.Lemmas.Serde
+import CookModel.Lemmas.SerdeAudit
+import CookModel.Lemmas.SerdeMods
 /-
   C15  Recipes survive serialization.
 
@@ -43,6 +45,7 @@ theorem C15_no_key_collision :
 theorem C15_value_roundtrip {α} [Arith α] (c : NumCodec α) (hc : c.RoundTrips) (v : Value α) (hv : valueFinite v) :
     decValue c (encValue c v) = some v := decValue_encValue c hc v hv
 
+/-- `ScalableValue` (`fixed` / `linear`, adjacently tagged) around a `Value` -/
 theorem C15_scalable_value_roundtrip {α} [Arith α] (c : NumCodec α) (hc : c.RoundTrips) (v : ScalableValue α)
     (hv : scalableFinite v) : decScalable c (encScalable c v) = some v := decScalable_encScalable c hc v hv
 
@@ -101,6 +104,67 @@ theorem C15_reencode_scaled {α} [Arith α] (c : NumCodec α) (hc : c.RoundTrips
 theorem C15_nonfinite_unreadable {α} [Arith α] (c : NumCodec α) (x : α) (hx : Arith.isFinite x = false) :
     decNumber c (encNumber c (.regular x)) = none := by
   simp [encNumber, decNumber, adj, Json.tagOf, Json.field, lookup, encF64, decF64, hx]
+
+/-! ### Added by the clause audit (notes/audit-C15.md) -/
+
+/-- A scaled recipe that HAS BEEN read back once is a fixed point: serializing and reading it again gives exactly the
+    same recipe (plain equality, no `normalize`) — after one round trip the only thing serialization does not carry,
+    the payload of `ScaleOutcome::Error`, already is the default.  So "deserializes to an equal recipe" holds literally
+    for every `ScaledRecipe` that came out of `from_str`. -/
+theorem C15_scaled_fixed_point {α} [Arith α] (c : NumCodec α) (hc : c.RoundTrips)
+    (r r' : FullRecipe α (Value α) (Scaled α))
+    (hfin : RecipeFinite valueFinite r.recipe) (hm : RecipeModsKnown r.recipe) (hd : scaledFinite r.data)
+    (h : decScaledRecipe c (encScaledRecipe c r) = some r') :
+    decScaledRecipe c (encScaledRecipe c r') = some r' := by
+  rw [C15_decode_encode_scaled c hc r hfin hm hd] at h
+  have e := Option.some.inj h
+  subst e
+  have := C15_decode_encode_scaled c hc { r with data := r.data.normalize } hfin hm (scaledFinite_normalize r.data hd)
+  simpa only [Scaled.normalize_idem] using this
+
+/-- Every successful outcome (`Scaled`, `Fixed`, `NoQuantity`) is carried exactly: a scaled recipe without `Error`
+    outcomes deserializes to an EQUAL recipe. -/
+theorem C15_decode_encode_scaled_no_errors {α} [Arith α] (c : NumCodec α) (hc : c.RoundTrips)
+    (r : FullRecipe α (Value α) (Scaled α))
+    (hfin : RecipeFinite valueFinite r.recipe) (hm : RecipeModsKnown r.recipe) (hd : scaledFinite r.data)
+    (hne : r.data.normalize = r.data) :
+    decScaledRecipe c (encScaledRecipe c r) = some r := by
+  rw [C15_decode_encode_scaled c hc r hfin hm hd, hne]
+
+/-- The premise "finite numbers" is about `f64` only: over exact rationals it holds for every recipe, and the round trip
+    of a parsed recipe needs nothing but the declared modifier flags. -/
+theorem C15_decode_encode_scalable_rat (c : NumCodec Rat) (hc : c.RoundTrips)
+    (r : FullRecipe Rat (ScalableValue Rat) Servings) (hm : RecipeModsKnown r.recipe) :
+    decScalableRecipe c (encScalableRecipe c r) = some r :=
+  C15_decode_encode_scalable c hc r (recipeFinite_rat _ scalableFinite_rat _) hm
+
+/-- … the same for scaled recipes. -/
+theorem C15_decode_encode_scaled_rat (c : NumCodec Rat) (hc : c.RoundTrips)
+    (r : FullRecipe Rat (Value Rat) (Scaled Rat)) (hm : RecipeModsKnown r.recipe) :
+    decScaledRecipe c (encScaledRecipe c r) = some { r with data := r.data.normalize } :=
+  C15_decode_encode_scaled c hc r (recipeFinite_rat _ valueFinite_rat _) hm (scaledFinite_rat _)
+
+/-- PARTIAL step towards discharging the premise `RecipeModsKnown` for PARSED recipes (the property says "any parsed
+    recipe"; the premise is the only one of `C15_decode_encode_scalable` that is neither the property's own nor a fact
+    about the JSON library).  The two places of the parser and the analysis that COMPUTE modifier bits only produce the
+    five declared flags: (1) `parse_modifiers`, from every parser state and for every token list, returns a set with
+    `bits < 32`; (2) `resolve_reference`, given such a set and an inherit mask of declared flags (the callers pass
+    `HIDDEN | OPT | RECIPE` for ingredients and `HIDDEN | OPT` for cookware), returns such a set (the given one, or the
+    given one joined with the inherited flags and `REF`); (3) such a set survives the `"A | B"` string form.
+    MISSING for the full clause: the sweep showing that every `Ingredient` / `Cookware` stored by the analysis carries
+    either the event's modifiers or the result of `resolve_reference` on them (an invariant of `processEvent` over the
+    event stream of `pullEvents`); see notes/audit-C15.md. -/
+theorem C15_modifier_flags_partial {α : Type} [Arith α] :
+    (∀ (mtoks : List Tok) (pos : Nat) (s : BP α), (parseModifiers (α := α) mtoks pos s).1.flags.val.bits < 32) ∧
+    (∀ (env : Env) (container : String) (inherit : Nat) (existing : List (Str × Modifiers)) (name : Str)
+        (mods : Modifiers) (location modLoc : Span) (s : Col α), mods.bits < 32 → inherit < 32 →
+        (resolveReference env container inherit existing name mods location modLoc s).1.1.bits < 32) ∧
+    (Modifiers.HIDDEN ||| Modifiers.OPT ||| Modifiers.RECIPE < 32 ∧ Modifiers.HIDDEN ||| Modifiers.OPT < 32) ∧
+    (∀ m : Modifiers, m.bits < 32 → decMods (encMods m) = some m) :=
+  ⟨fun mtoks pos s => audit_parseModifiers_bits_run mtoks pos s,
+   fun env container inherit existing name mods location modLoc s hm hi =>
+     audit_resolveReference_bits env container inherit existing name mods location modLoc s hm hi,
+   ⟨by decide, by decide⟩, fun m h => decMods_encMods m h⟩
 
 /-! Non-vacuity: a codec over ℚ that round-trips (unary spelling of numerator and denominator),
     and a recipe that satisfies the hypotheses. -/
